@@ -317,7 +317,8 @@ def run(ctx):
     ctx.rule('C17.1-receiver-in-step', 'replies are taken from frames the peer sent as frames: after an error that leaves a frame body unread the receiver stops instead of parsing the body as frames, '
              'and no call holds a guard of the connection table while it waits for its reply (rules C19.3-sync-after-error and C19.4-table-guard-scope re-run)', floor=1)
     from . import c19 as _c19
-    _c19.run(_Sub(ctx, 'C17.1-receiver-in-step', 'c19', allow=['C19.3-sync-after-error', 'C19.4-table-guard-scope']))
+    if type(ctx).__name__ != 'SubCtx':
+        _c19.run(_Sub(ctx, 'C17.1-receiver-in-step', 'c19', allow=['C19.3-sync-after-error', 'C19.4-table-guard-scope', 'C19.1-payload-kept']))
 
     # the registration is removed by code that runs after the wait: a future that is dropped in the middle of the wait never gets there
     ctx.rule('C17.1-not-cancelled-inside', 'inside the node no future of a function that registers an outstanding call (or of a function awaiting one) is handed to tokio::time::timeout, select or abort: '
